@@ -201,6 +201,52 @@ def cancel_component(ck, rng, tier):
     proc.kill()
 
 
+def tasktrace_component(ck, rng, tier):
+    """Real executions on the thread pool (with and without cancellation, with run-time errors) log every ScheduleState
+    transition of every task (cfg hook in glaredb_rt_native); each task's trace must be a run of the Lean Task model."""
+    comp = "tasktrace"
+    queries = ["SELECT count(*) FROM generate_series(1, 200000) a(x) JOIN generate_series(1, 1000) b(y) ON a.x = b.y",
+               "SELECT x % 10, count(*), sum(x) FROM generate_series(1, 3000000) a(x) GROUP BY x % 10",
+               "SELECT x FROM generate_series(1, 2000000) a(x) ORDER BY x % 1000, x DESC LIMIT 5",
+               "SELECT CAST(CASE WHEN x = 77777 THEN 'zz' ELSE '1' END AS INT) FROM generate_series(1, 100000) a(x)",
+               "WITH c AS MATERIALIZED (SELECT x FROM generate_series(1, 100000) a(x)) SELECT count(*) FROM (SELECT x FROM c UNION ALL SELECT x + 1 FROM c) u",
+               "SELECT count(*), sum(x) FROM generate_series(1, 200000000) g(x)"]
+    reqs = []
+    n = 24 if tier == "quick" else 300
+    for i in range(n):
+        q = rng.pick(queries)
+        delay = rng.pick([-1, -1, 0, 1, 5, 20, 60])
+        reqs.append({"id": i, "threads": rng.pick([1, 2, 4, 8]), "partitions": rng.pick([1, 2, 3, 8]), "delay_ms": delay, "query": q})
+    inp = "\n".join(json.dumps(r) for r in reqs) + "\n"
+    try:
+        p = subprocess.run([vlib.GVH, "tasktrace"], input=inp, capture_output=True, text=True, timeout=900, env=vlib.ENV)
+    except subprocess.TimeoutExpired:
+        ck.violation("tasktrace/hang", "gvh tasktrace did not finish in 900 s", {"kind": "crash", "requests": reqs[:5]})
+        return
+    if p.returncode != 0:
+        ck.violation("tasktrace/harness", "gvh tasktrace failed: " + p.stderr[-300:], {"correspondence": "gvh tasktrace", "stderr": p.stderr[-800:]}, found_input=False)
+        return
+    cases = [l for l in p.stdout.split("\n") if l.startswith("case ")]
+    outs = vlib.run_model(cases, timeout=300).get("out", {})
+    rejected = 0
+    nev = 0
+    for l in cases:
+        k = l.split(" ")[1]
+        ck.count(comp, 1)
+        nev += len(l.split(" ")) - 3
+        ck.nontrivial(l.split(" ", 3)[3] if len(l.split(" ", 3)) > 3 else k)
+        o = outs.get(k, "missing")
+        if o != "accept":
+            rejected += 1
+            if rejected <= 3:
+                ck.violation("tasktrace/model-diff", f"a task's logged ScheduleState transitions are not a run of the Lean Task model ({o}): {l[:300]}",
+                             {"correspondence": "Proto.accept vs TaskState::schedule / worker loop (event log)", "trace": l, "model": o}, found_input=False)
+    ck.note(comp, "tasks", len(cases))
+    ck.note(comp, "events", nev)
+    ck.note(comp, "rejected", rejected)
+    ck.note(comp, "queries", len(reqs))
+
+
 def error_component(ck, runner, tier):
     comp = "errors"
     q = "SELECT CAST(CASE WHEN x = {k} THEN 'zz' ELSE '1' END AS INT) FROM generate_series(1, {n}) a(x)"
@@ -250,6 +296,8 @@ def main():
         ck.note("sched", "wall_s", round(time.time() - t0, 1))
         t0 = time.time()
         error_component(ck, runner, tier)
+        if not vlib.HARNESS_DEGRADED:
+            tasktrace_component(ck, rng, tier)
         cancel_component(ck, rng, tier)
         ck.note("cancel", "wall_s", round(time.time() - t0, 1))
     finally:
